@@ -205,10 +205,14 @@ Fixpoint parts_loop (fuel : nat) (count : Z) : dec (list Z) :=
 Definition make_parts (bounds : bool) (np : Z) : dec unit :=
   fun b =>
     if bounds then
-      (* repaired: if numPartitions < 0 || int(numPartitions) > buf.Len()/4 { error } *)
+      (* repaired: if numPartitions < 0 { error }; if int(numPartitions) > buf.Len()/4 { error } *)
       if (np <? 0) || (blen b / 4 <? np) then DErr [] else DOk tt b [4 * np]
     else
       if np <? 0 then DCrash MakeSliceLen else DOk tt b [4 * np].
+
+(* the slice is allocated, then filled *)
+Definition parts_block (bounds : bool) (np : Z) : dec (list Z) :=
+  _ <- make_parts bounds np ;; (fun b => parts_loop (S (length b)) np b).
 
 Fixpoint topics_loop (bounds : bool) (fuel : nat) (count : Z) (m : amap) : dec amap :=
   fun b =>
@@ -218,8 +222,7 @@ Fixpoint topics_loop (bounds : bool) (fuel : nat) (count : Z) (m : amap) : dec a
          | S f =>
              (name <- read_string bounds ;;
               np <- d_i32 ;;
-              _ <- make_parts bounds np ;;
-              ps <- (fun b' => parts_loop (S (length b')) np b') ;;
+              ps <- parts_block bounds np ;;
               topics_loop bounds f (count - 1) (amap_set name ps m)) b
          end.
 
@@ -227,8 +230,8 @@ Fixpoint topics_loop (bounds : bool) (fuel : nat) (count : Z) (m : amap) : dec a
 Definition make_topics (bounds : bool) (nt : Z) : dec unit :=
   fun b =>
     if bounds then
-      (* repaired: if numTopics < 0 || int(numTopics) > buf.Len()/6 { error } *)
-      if (nt <? 0) || (blen b / 6 <? nt) then DErr [] else DOk tt b [map_entry_bytes * nt]
+      (* repaired: if numTopics < -1 { error }; the size hint is min(numTopics, buf.Len()/6), at least 0 *)
+      if nt <? -1 then DErr [] else DOk tt b [map_entry_bytes * Z.max 0 (Z.min nt (blen b / 6))]
     else
       (* a negative hint is ignored by the runtime *)
       if nt <? 0 then DOk tt b [] else DOk tt b [map_entry_bytes * nt].
